@@ -22,8 +22,8 @@ class C05(C.ProgramDiff):
     technique = ('property-based differential testing against a reference interpreter (Hypothesis) + '
                  'bounded-exhaustive enumeration of clause bodies with cuts')
     rule = ('(a) random programs whose bodies use !, ",", ";", "->", if-then-else and \\+ with cuts only in '
-            'transparent positions, queried with 3 queries (half of them derived from clause heads); (b) ALL clause '
-            'bodies with <= 3 leaves (thorough: <= 4) over {m0,m1,m2,true,fail,!} x {",",";","->"} (+ one \\+ at any '
+            'transparent positions, queried with 3 queries (half of them derived from clause heads); (b) bounded-exhaustive: clause '
+            'bodies with <= 2 leaves and a quarter of the 3-leaf ones (thorough: all <= 3 leaves and all 4-leaf ones without negation) over {m0,m1,m2,true,fail,!,is1,r2} x {",",";","->"} (+ one \\+ at any '
             'node) that contain a cut, as middle clause of a 3-clause predicate called as w(W), t(..), w(W2). Answers '
             'compared with reference R (and R with the second engine). Non-trivial = a cut is reached in R\'s run and '
             'prunes, i.e. R with every ! replaced by true gives a different answer sequence; distinct = SHA-1 of '
@@ -33,7 +33,52 @@ class C05(C.ProgramDiff):
     cases = {'quick': 2400, 'thorough': 40000}
     cfg = gen.with_cfg(control=frozenset(['cut', ';', 'ite', '->', 'not']))
     answer_limit = 200
-    enum_leaves = {'quick': 3, 'thorough': 4}
+
+    def decode(self, src):
+        case = C.ProgramDiff.decode(self, src)
+        k = src.n(8)
+        if k >= 6:
+            clauses = list(case['clauses'])
+            queries = list(case['queries'])
+            V = lambda n: ('v', 'I%s' % n)      # noqa: E731
+            f = lambda name, *a: ('f', name, tuple(a))      # noqa: E731
+            call = lambda t: ('call', t)      # noqa: E731
+            lp = lambda h, t: ('f', '.', (h, t))      # noqa: E731
+            A = src.pick(gen.Cfg.atoms)
+            if k == 6:
+                # classic cut idioms: all-variable heads with a repeated variable and a leading cut, memberchk, ...
+                idioms = [
+                    [(f('neq', V(1), V(1)), (',', ('cut',), ('fail',))), (f('neq', gen.anon_var(src), gen.anon_var(src)), ('true',))],
+                    [(f('same3', V(1), V(2), V(1)), (',', ('cut',), call(f('=', V(2), ('a', 'eq'))))), (f('same3', gen.anon_var(src), V(2), gen.anon_var(src)), call(f('=', V(2), ('a', 'ne'))))],
+                    [(f('mchk', V(1), lp(V(1), gen.anon_var(src))), ('cut',)), (f('mchk', V(1), lp(gen.anon_var(src), V(2))), call(f('mchk', V(1), V(2))))],
+                    [(f('fst', V(1)), (',', call(f('q', V(1))), ('cut',))), (f('fst', ('a', 'none')), ('true',))],
+                ]
+                idi = src.pick(idioms)
+                clauses += idi
+                name = idi[0][0][1]
+                n = len(idi[0][0][2])
+                for _ in range(2):
+                    if name == 'mchk':
+                        queries.append(f('mchk', src.pick([('a', A), gen.QVARS[0]]), gen.gen_list(src, gen.QVARS, gen.Cfg)))
+                    else:
+                        queries.append(('f', name, tuple(src.pick([('a', A), ('a', 'b'), gen.QVARS[0], gen.QVARS[1]]) for _ in range(n))))
+            else:
+                # a long clause body with a cut late in it (13-18 top-level goals)
+                n = 10 + src.n(9)
+                at = src.n(n)
+                goals = []
+                for i in range(n):
+                    goals.append(('cut',) if i == at else call(f(src.pick(['two', 'one', 'two']), V(i % 4))) if src.n(3) else ('true',))
+                body = goals[-1]
+                for g in reversed(goals[:-1]):
+                    body = (',', g, body)
+                clauses += [(f('two', ('i', 1)), ('true',)), (f('two', ('i', 2)), ('true',)), (f('one', ('i', 1)), ('true',)),
+                            (f('lng', V(0), V(1), V(2), V(3)), body), (f('lng', ('a', 'z'), ('a', 'z'), ('a', 'z'), ('a', 'z')), ('true',))]
+                queries.append(f('lng', *gen.QVARS[:3], ('v', 'Q3')))
+            case['clauses'] = clauses
+            case['queries'] = queries
+            case['text'] = gen.program_text(clauses, src)
+        return case
 
     def nontrivial(self, clauses, q, st, ref, it, feats, classes):
         if st != 'done' or 'cut-reached' not in it.events:
@@ -50,17 +95,38 @@ class C05(C.ProgramDiff):
         return B.has(b, ('cut',))
 
     def enumerate(self, tier):
-        n = self.enum_leaves[tier]
+        import os
+        seed = int(os.environ.get('VERIF_SEED', '1') or '1')
         cases = []
-        for k in range(1, n + 1):
-            for nl, b in B.bodies(k, True):
-                if not self.keep_body(b):
-                    continue
-                clauses, q = B.program_for(b, nl)
-                cases.append({'text': C.plain_text(clauses), 'clauses': clauses, 'queries': [q], 'enumerated': True})
-        return ('all clause bodies with <= %d leaves over {m0,m1,m2,true,fail,!} x {",",";","->"} with at most one '
-                '\\+ wrapped around any node, cuts in transparent positions only, restricted to %s; wrapper program: '
-                'middle clause of t/n called as w(W), t(V1..Vn), w(W2)' % (n, self.enum_focus), cases)
+
+        def add(nl, b):
+            clauses, q = B.program_for(b, nl)
+            cases.append({'text': C.plain_text(clauses), 'clauses': clauses, 'queries': [q], 'enumerated': True})
+        if tier == 'quick':
+            for k in (1, 2):
+                for nl, b in B.bodies(k, True):
+                    if self.keep_body(b):
+                        add(nl, b)
+            i = 0
+            for nl, b in B.bodies(3, True):
+                if self.keep_body(b):
+                    if i % 4 == seed % 4:
+                        add(nl, b)
+                    i += 1
+            scope = ('ALL bodies with <= 2 leaves, plus every 4th (offset VERIF_SEED mod 4) of the bodies with 3 leaves '
+                     '(the thorough tier enumerates all of them)')
+        else:
+            for k in (1, 2, 3):
+                for nl, b in B.bodies(k, True):
+                    if self.keep_body(b):
+                        add(nl, b)
+            for nl, b in B.bodies(4, False):
+                if self.keep_body(b):
+                    add(nl, b)
+            scope = 'ALL bodies with <= 3 leaves, plus ALL bodies with 4 leaves without negation'
+        return (scope + '; leaves {m0,m1,m2,true,fail,!,is1(Vprev),m2(Vprev)} x connectives {",",";","->"}, one node optionally '
+                'wrapped in \\+ or \\+ \\+, cuts in transparent positions only, restricted to %s; wrapper program: middle clause '
+                'of t/n called as w(W), t(V1..Vn), w(W2)' % self.enum_focus, cases)
 
     enum_focus = 'bodies that contain a cut'
 
